@@ -775,7 +775,7 @@ const NUMERIC_ATTRS: [(&str, &str); 22] = [
     ("image", "yOffset"), ("glyph", "format"),
 ];
 const ID_KINDS: [&str; 5] = ["anchor", "guideline", "contour", "point", "component"];
-pub const N_KINDS: usize = 46;
+pub const N_KINDS: usize = 52;
 
 fn pick_path(rng: &mut Rng, root: &El, names: &[&str]) -> Option<Vec<usize>> {
     let ps = paths_named(root, names);
@@ -791,6 +791,58 @@ fn parent_and_index(p: &[usize]) -> (Vec<usize>, usize) {
 }
 
 /// apply violation / variation `kind` at a random applicable position; None = not applicable
+/// spellings that are NOT the name `n` but resemble it: the parser compares the full tag / attribute name literally, so
+/// a known name behind a namespace prefix, with a colon anywhere, in another case, or with a character next to it that
+/// quick-xml keeps in the name (every blank except space, tab, CR, LF; control characters) is an unknown name
+fn name_variants(n: &str) -> Vec<String> {
+    let mut v: Vec<String> = Vec::new();
+    for p in ["x:", "xml:", "xmlns:", "other.vendor:", ":", "x:y:", "glif:", "\u{e9}:"] {
+        v.push(format!("{}{}", p, n));
+    }
+    for s in [":", ":x", ":advance", ".", "-", "s", "_"] {
+        v.push(format!("{}{}", n, s));
+    }
+    let mut cs = n.chars();
+    let first = cs.next().unwrap();
+    v.push(format!("{}{}", first.to_uppercase(), cs.as_str()));
+    v.push(n.to_uppercase());
+    if n.to_lowercase() != n {
+        v.push(n.to_lowercase());
+    }
+    let k = n.len() - 1;
+    v.push(format!("{}{}", &n[..k], n[k..].to_uppercase()));
+    for b in ["\u{a0}", "\u{3000}", "\u{2003}", "\u{2028}", "\u{85}", "\u{b}", "\u{c}", "\u{1}", "\u{1f}", "\u{7f}", "\u{200b}", "\u{feff}"] {
+        v.push(format!("{}{}", n, b));
+        v.push(format!("{}{}", b, n));
+    }
+    if n.len() > 1 {
+        v.push(n[..k].to_string());
+    }
+    v
+}
+
+fn is_v1(d: &El) -> bool {
+    d.attrs.iter().any(|a| a.0 == "format" && a.1 == "1")
+}
+
+/// rename one element (chosen among `names`) to a variant of its name, in empty-element or start-tag form
+fn rename_element(rng: &mut Rng, d: &mut El, names: &[&str]) -> Option<()> {
+    let p = pick_path(rng, d, names)?;
+    let e = at_mut(d, &p);
+    let vs = name_variants(&e.name);
+    e.name = vs[rng.below(vs.len())].clone();
+    if e.kids.is_empty() {
+        e.style = *rng.pick(&[Style::SelfClose, Style::SelfClose, Style::Explicit]);
+    }
+    // declared or not: the parser is not namespace aware (and refuses the declaration on <glyph> as an unknown attribute)
+    if rng.chance(1, 5) {
+        let k = *rng.pick(&["xmlns:x", "xmlns:xml", "xmlns"]);
+        let pos = rng.below(d.attrs.len() + 1);
+        d.attrs.insert(pos, (k.to_string(), "urn:x".to_string()));
+    }
+    Some(())
+}
+
 pub fn mutate(rng: &mut Rng, base: &El, kind: usize) -> Option<(El, bool)> {
     let mut d = base.clone();
     let mut decl = true;
@@ -1112,7 +1164,118 @@ pub fn mutate(rng: &mut Rng, base: &El, kind: usize) -> Option<(El, bool)> {
         }
         45 => {
             // wrong root element
-            d.name = pk(rng, &["Glyph", "glif", "outline"]).to_string();
+            if rng.chance(1, 3) {
+                d.name = pk(rng, &["Glyph", "glif", "outline"]).to_string();
+            } else {
+                let vs = name_variants("glyph");
+                d.name = vs[rng.below(vs.len())].clone();
+            }
+        }
+        // ---- names that only resemble a known name (namespace prefix, colon, case, a kept blank or control character)
+        // elements of the glyph body, empty-element and start-tag forms
+        46 => rename_element(rng, &mut d, &["advance", "unicode", "anchor", "guideline", "image", "outline", "lib", "note"])?,
+        // elements of the outline and of a contour
+        47 => rename_element(rng, &mut d, &["contour", "component", "point"])?,
+        // an additional element with such a name next to the real one (it must not count as the one allowed advance etc.)
+        48 => {
+            let host: Vec<usize> = match rng.below(4) {
+                0 => pick_path(rng, &d, &["outline"]).unwrap_or_default(),
+                1 => pick_path(rng, &d, &["contour"]).unwrap_or_default(),
+                _ => Vec::new(),
+            };
+            let v1 = is_v1(&d);
+            let h = at_mut(&mut d, &host);
+            let (n, attrs): (&str, Vec<(&str, &str)>) = match h.name.as_str() {
+                "contour" => ("point", vec![("x", "1"), ("y", "2"), ("type", "line")]),
+                "outline" => {
+                    if rng.chance(1, 2) {
+                        ("component", vec![("base", "b")])
+                    } else {
+                        ("contour", vec![])
+                    }
+                }
+                _ => match rng.below(if v1 { 3 } else { 8 }) {
+                    0 => ("advance", vec![("width", "500")]),
+                    1 => ("unicode", vec![("hex", "0041")]),
+                    2 => ("outline", vec![]),
+                    3 => ("anchor", vec![("x", "1"), ("y", "2"), ("name", "top")]),
+                    4 => ("guideline", vec![("x", "10")]),
+                    5 => ("image", vec![("fileName", "a.png")]),
+                    6 => ("note", vec![]),
+                    _ => ("lib", vec![]),
+                },
+            };
+            let vs = name_variants(n);
+            // half of the time a namespace prefix (the first eight variants)
+            let i = if rng.chance(1, 2) { rng.below(8) } else { rng.below(vs.len()) };
+            let mut e = El::new(&vs[i], &attrs);
+            if rng.chance(1, 4) {
+                e.style = Style::Explicit;
+            }
+            if h.name == "contour" && h.kids.is_empty() {
+                h.style = Style::Explicit;
+            }
+            let pos = rng.below(h.kids.len() + 1);
+            h.kids.insert(pos, Node::El(e));
+        }
+        // an attribute renamed to a variant of its name, on every element kind
+        49 => {
+            let ps: Vec<_> = paths(&d).into_iter().filter(|p| !at(&d, p).attrs.is_empty()).collect();
+            if ps.is_empty() {
+                return None;
+            }
+            let p = ps[rng.below(ps.len())].clone();
+            let e = at_mut(&mut d, &p);
+            if e.name == "contour" && e.kids.is_empty() {
+                e.style = Style::Explicit;
+            }
+            let i = rng.below(e.attrs.len());
+            let vs = name_variants(&e.attrs[i].0);
+            let nn = vs[rng.below(vs.len())].clone();
+            if e.attrs.iter().any(|a| a.0 == nn) {
+                return None;
+            }
+            if rng.chance(1, 2) {
+                // next to the real attribute instead of replacing it
+                let a = (nn, e.attrs[i].1.clone());
+                let pos = rng.below(e.attrs.len() + 1);
+                e.attrs.insert(pos, a);
+            } else {
+                e.attrs[i].0 = nn;
+            }
+        }
+        // namespace machinery as attributes: the glif format defines none of them
+        50 => {
+            let ps = paths(&d);
+            let p = ps[rng.below(ps.len())].clone();
+            let e = at_mut(&mut d, &p);
+            if e.name == "contour" && e.kids.is_empty() && rng.chance(1, 2) {
+                e.style = Style::Explicit;
+            }
+            let (k, v) = *rng.pick(&[("xmlns", "http://unifiedfontobject.org/glif"), ("xmlns:x", "urn:x"), ("xml:space", "preserve"), ("xml:lang", "en"),
+                ("xml:id", "i1"), ("xmlns:name", "a"), ("xmlns:format", "2"), ("x:name", "a"), ("xml:base", "b"), ("XMLNS", "u")]);
+            if e.attrs.iter().any(|a| a.0 == k) {
+                return None;
+            }
+            let pos = rng.below(e.attrs.len() + 1);
+            e.attrs.insert(pos, (k.to_string(), v.to_string()));
+        }
+        // elements inside a note: only the end tag spelt exactly `note` ends it
+        51 => {
+            if is_v1(&d) {
+                return None;
+            }
+            let inner = *rng.pick(&["a<x:note>b</x:note>c", "a<b>bold</b>c", "<x:note/>t", "a<note:x>b</note:x>", "a<Note>b</Note>c", "a<note\u{a0}>b</note\u{a0}>c",
+                "a<note>b</note>c", "<lib/>", "a<!-- c -->b", "a<xml:note>b</xml:note>", "<:note>x</:note>y"]);
+            match pick_path(rng, &d, &["note"]) {
+                Some(p) => at_mut(&mut d, &p).kids = vec![Node::Raw(inner.to_string())],
+                None => {
+                    let mut n = El::new("note", &[]);
+                    n.kids.push(Node::Raw(inner.to_string()));
+                    let pos = rng.below(d.kids.len() + 1);
+                    d.kids.insert(pos, Node::El(n));
+                }
+            }
         }
         _ => return None,
     }
